@@ -289,7 +289,7 @@ func newExec(P *Program, wk *worker, spec HarnessSpec, prefix []int) *Exec {
 		covers: map[string]bool{}, coverModel: map[string]map[string]string{},
 		funcs: map[*ssa.Function]int{}, stubs: map[string]int{},
 		unixOrigin: map[*Term]*Term{}, durSplit: map[*Term][2]*Term{}, atomVC: map[*Value][]int{},
-		redirects: map[string]Value{}, gomaxprocs: 4, regexps: map[*Value]string{}, known: map[*Term]bool{}, intOrigin: map[*Term]*Term{}, bigs: map[*Value]*Term{}, viper: map[string]IfaceV{},
+		redirects: map[string]Value{}, gomaxprocs: 4, regexps: map[*Value]string{}, known: map[*Term]bool{}, ufApps: map[string][]ufApp{}, intOrigin: map[*Term]*Term{}, bigs: map[*Value]*Term{}, viper: map[string]IfaceV{},
 		opts: spec.Opts, intMode: spec.Opts.IntMode,
 	}
 	if e.opts.MaxSteps == 0 {
